@@ -86,6 +86,12 @@ package utils
 //@   pure
 //@   safe
 //@ end
+//@ func Uint16ToBytesLittleEndian
+//@   props C01 C08
+//@   ensures len(result) == 2 && le16(result) == val
+//@   pure
+//@   safe
+//@ end
 // (these two go through encoding/binary.Write into a bytes.Buffer: ASSUMED)
 //@ func Int64ToBytesLittleEndian
 //@   assumed
